@@ -34,7 +34,9 @@ func processReadBuf(rb []byte, searchDepth int) []byte {
 
 	partitionIdx := bytes.Index(prb, []byte("\n"))
 
-	if partitionIdx > 0 {
+	// start the window at a line boundary, unless that leaves nothing to search: a single line longer
+	// than the search depth that ends in a newline (a one-line netconf hello for example)
+	if partitionIdx > 0 && len(bytes.TrimSpace(prb[partitionIdx:])) > 0 {
 		prb = prb[partitionIdx:]
 	}
 
